@@ -109,16 +109,17 @@ Definition gcm_row (k e : nat) (s : gst) : gst :=
         (glru s1) (gcsize s1) (gcmax s1) (gerr s1)
   else s1.
 
-(* void row(k,start,end,storage) const: the cells written to storage, from storage[0] on.
+(* void row(k,start,end,storage) const (as repaired by f9a1ac31): the cells written to storage[0..end-start)
+     cached = min(lineLength(k), end);
      if (start < cached) copy(line+start, line+cached, storage);
-     base->row(k, cached, end, storage + (cached-start));
-   When cached < start the second line computes storage + (cached-start) with an unsigned
-   wrap-around, i.e. a pointer BEFORE the buffer, and (cached < start <= end) the base writes there:
-   None.  Every caller in the library passes start = 0. *)
-Definition gcm_row_const (k a e : nat) (s : gst) : option (list V) :=
-  let cached := glinelen s k in
-  if cached <? a then None
-  else Some (skipn a (gline s k) ++ browf (gbase s) k cached e).
+     first = max(start, cached);
+     base->row(k, first, end, storage + (first-start));
+   Before the repair the whole cached line was copied (past the end of the buffer when end < cached) and the
+   base was asked for [cached,end) at storage + (cached-start) (before the buffer when cached < start). *)
+Definition gcm_row_const (k a e : nat) (s : gst) : list V :=
+  let cached := Nat.min (glinelen s k) e in
+  let first := Nat.max a cached in
+  firstn (cached - a) (skipn a (gline s k)) ++ browf (gbase s) k first e.
 
 Definition gflip_line (b : B) (i j k : nat) (l : list V) : list V :=
   if length l <=? i then l
@@ -159,7 +160,7 @@ Definition gwf_op (s : gst) (o : gop) : bool :=
   | GFlip i j => (i <? gsize s) && (j <? gsize s)
   | GSetMax m => m <=? gsize s
   | GClear => true
-  | GRowC k a e => (k <? gsize s) && (a <=? e) && (e <=? gsize s) && (a <=? glinelen s k)
+  | GRowC k a e => (k <? gsize s) && (a <=? e) && (e <=? gsize s)
   end.
 
 Definition gstep (s : gst) (o : gop) : gst :=
